@@ -33,6 +33,8 @@ SPIN = {  # endless computations driven by bytecode
     "loop_of_overloads": "wo_ = {@+: |o_|\n  t_ = 0\n  for i_ in 0..20000\n    t_ += i_\n  t_\n}\nloop\n  q_ = wo_ + 1\n",
     "loop_of_folds": "loop\n  q_ = (0..20000).fold 0, |a_, v_| a_ + v_\n",
     "loop_of_sort_keys": "loop\n  q_ = (0..3000).to_list().sort |v_| 0 - v_\n",
+    # an endless loop of individually slow instructions (each `+` copies 400 000 elements): the limit is polled per instruction count
+    "loop_of_slow_instructions": "big_ = (0..200000).to_list()\nloop\n  x_ = big_ + big_\n",
     "loop_of_generator_drains": "gd_ = ||\n  for i_ in 0..20000\n    yield i_\nloop\n  q_ = gd_().count()\n",
 }
 def nest(kind, spin):
